@@ -24,6 +24,7 @@ use config::*;
 use state::*;
 use utils::*;
 
+mod conc;
 mod fnmode;
 mod orch;
 mod timer;
@@ -102,6 +103,7 @@ fn main() {
     match args[1].as_str() {
         "run" => orch::run_file(&input, &mut out),
         "timer" => timer::run_file(&input, &mut out),
+        "conc" => conc::run_file(&input, &mut out),
         "fn" => fnmode::run_file(&input, &mut out),
         _ => {
             eprintln!("unknown mode");
